@@ -363,6 +363,8 @@ pub struct NodeSpec {
     pub user_outbound_delay: Duration,
     /// ... and adds a header `x-added` with a value of this many bytes (0 = none) to every request
     pub user_outbound_adds_header: usize,
+    /// the network is bound on a dual-stack IPv6 address (its peers are IPv4 hosts all the same)
+    pub dual_stack: bool,
     /// let the harness switch on settings that must not change any behaviour the scenario looks
     /// at (huge default timeouts, a huge connection limit, an alternate network name, a
     /// pass-through outbound layer, a tiny mailbox, ...): correctness must not silently depend on
@@ -396,6 +398,7 @@ impl World {
             user_outbound_layer: false,
             user_outbound_delay: Duration::ZERO,
             user_outbound_adds_header: 0,
+            dual_stack: false,
             vary_benign: true,
         }
     }
@@ -451,10 +454,15 @@ impl World {
             if !spec.user_outbound_layer && r.gen_bool(0.25) {
                 spec.user_outbound_layer = true;
             }
+            // the address family a network is bound on has no bearing on anything it does with
+            // its (IPv4) peers
+            if r.gen_bool(0.15) {
+                spec.dual_stack = true;
+            }
             self.probe("benign-config-variation");
         }
         let a = addr_port(spec.idx, spec.port);
-        let socket = self.fabric.bind(a)?;
+        let socket = if spec.dual_stack { self.fabric.bind_dual_stack(a)? } else { self.fabric.bind(a)? };
         let rt = Arc::new(SimRuntime::default());
         let mut rng_seed = self.choice.bytes32(&format!("quinn:{}:{}", spec.idx, spec.port));
         rng_seed[0] ^= spec.idx;
@@ -490,7 +498,7 @@ impl World {
         }
         let net = b.start(service).map_err(|e| anyhow::anyhow!("start failed: {e}"))?;
         assert_eq!(net.peer_id(), peer_id);
-        assert_eq!(net.local_addr(), a);
+        assert!(net.local_addr() == a || (spec.dual_stack && net.local_addr().is_ipv6()));
         self.name_peer(peer_id, &format!("n{}", spec.idx));
         Ok(Node {
             idx: spec.idx,
